@@ -140,7 +140,7 @@ def generate(repo, registry, contract, variant=None, fnode_override=None, opts=N
                  "lines": (fnode.lineno, getattr(fnode, "end_lineno", fnode.lineno)), "file": mod.path}
 
 
-def discharge(vcs, timeout_ms=20000, extra_assumption=None):
+def discharge(vcs, timeout_ms=20000, extra_assumption=None, use_cvc5=True):
     """Group by obligation id; an obligation is proved iff every path VC is unsat."""
     by = {}
     for vc in vcs:
@@ -154,7 +154,7 @@ def discharge(vcs, timeout_ms=20000, extra_assumption=None):
             if z3.is_true(vc.goal):
                 rec["trivial"] += 1
                 continue
-            r = solve.check_valid(vc.pc, vc.goal, timeout_ms)
+            r = solve.check_valid(vc.pc, vc.goal, timeout_ms, use_cvc5=use_cvc5)
             rec["seconds"] += r["seconds"]
             solvers.add(r["solver"])
             if r["result"] != "unsat":
@@ -179,7 +179,7 @@ def verify_unit(repo, registry, contract, variant=None, timeout_ms=20000, canari
     try:
         vcs, info = generate(repo, registry, contract, variant, opts=opts)
         res.update(info)
-        res["obligations"] = discharge(vcs, timeout_ms)
+        res["obligations"] = discharge(vcs, contract.timeout_ms or timeout_ms, use_cvc5=contract.timeout_ms is None)
         if info["cover"] not in ("sat", "none"):
             res["status"] = "checker-error"
             res["error"] = "precondition of %s is not satisfiable (%s): vacuous contract" % (contract.label, info["cover"])
